@@ -51,6 +51,8 @@ func checkC03Write(c c03WriteCase) string {
 	s := toSubtitlesTTML(c.Doc)
 	if c.Foreign {
 		addForeignMetadata("ttml", s)
+		addForeignAttributes("ttml", s)
+		priorFailedWrite("ttml", 5+len(s.Items)*37, len(s.Items)%3)
 	}
 	var buf bytes.Buffer
 	var err error
